@@ -297,6 +297,31 @@ func vApply(g *SymbolGraph, m *vModel, o vOp) (string, string) {
 			}
 		}
 		up(o.a)
+		// the statement: exactly those dependants go that are left without any remaining dependency (a fixpoint)
+		gone := map[int]bool{o.a: true}
+		for changed := true; changed; {
+			changed = false
+			for i := 0; i < vNumKeys; i++ {
+				if !m.nodes[i] || gone[i] {
+					continue
+				}
+				lost, kept := false, false
+				for e := range m.edges {
+					if e.from != i {
+						continue
+					}
+					if gone[e.to] {
+						lost = true
+					} else if m.nodes[e.to] {
+						kept = true
+					}
+				}
+				if lost && !kept {
+					gone[i] = true
+					changed = true
+				}
+			}
+		}
 		g.RemoveNode(vKeys[o.a])
 		if g.Exists(vKeys[o.a]) {
 			return "removenode-still-there", fmt.Sprintf("RemoveNode(%c) left the node in place", 'a'+o.a)
@@ -307,6 +332,9 @@ func vApply(g *SymbolGraph, m *vModel, o vOp) (string, string) {
 					return "removenode-evicted-non-dependant", fmt.Sprintf("RemoveNode(%c) evicted %c which did not depend on it", 'a'+o.a, 'a'+i)
 				}
 				// an evicted dependant must have been left without a dependency on an existing node
+				if !gone[i] {
+					return "removenode-evicted-with-remaining-dependency", fmt.Sprintf("RemoveNode(%c) evicted dependant %c although it still depends on an existing node", 'a'+o.a, 'a'+i)
+				}
 			}
 			if m.nodes[i] && !g.Exists(vKeys[i]) {
 				m.nodes[i] = false
